@@ -4,7 +4,7 @@
 //@rtrace src/engine/core/zone/zone_plan.rs
 //@needs pub fn build_all(
 //@function src/engine/core/zone/zone_plan.rs::build_all
-//@harness name=zones_partition_rows_in_order kind=bounded bound="1..=3 events, rows_per_zone 1..=3" tier=quick timeout=1200 stubs=yes
+//@harness name=zones_partition_rows_in_order kind=bounded bound="1..=3 events, rows_per_zone 1..=3" tier=thorough timeout=2400 stubs=yes gate=yes
 //@obligation C04.zone_plan.build_all.partition_in_order : the flusher's zone planning cuts the (already ordered) event list into consecutive zones: ranges are contiguous, disjoint, cover every row, ids count up, and each zone holds exactly its slice of events in the same order -- no event is dropped, duplicated or reordered [bounded]
 
     use crate::engine::core::EventId;
